@@ -126,6 +126,8 @@ def _ring_identity(goal, hyps):
     from . import poly
     side = {}
     for c in _conjuncts(goal):
+        if z3.is_true(c):
+            continue
         if not (z3.is_eq(c) and z3.is_arith(c.arg(0))):
             return False
         ok, conds = poly.equal_by_normalisation(c.arg(0), c.arg(1))
@@ -219,6 +221,7 @@ class Engine:
         self.assumptions_used = set()
         self._decide_cache = {}
         self._div_seen = set()
+        self.tainted = False          # a silent simplification query timed out on the current path
         self.div_assume = False       # divisions assume (instead of prove) a non-zero denominator
         self.div_guard_off_spec = 0   # >0 while spec terms are evaluated (no facts are taken from spec divisions)
         self.concrete = None  # replay mode: dict symbol name -> python number
@@ -306,6 +309,11 @@ class Engine:
         ob.time_s = time.time() - t0
         if st == "unsat":
             ob.status = "discharged"
+        elif st == "sat" and self.tainted and kind in ("ensures", "invariant", "lemma"):
+            # the counter-model may be an artefact of a simplification / interning query that ran out of time earlier on
+            # this path (two equal operator arguments left un-identified): undecided, never an alarm
+            ob.status = "unknown"
+            ob.note = "solver found a model, but a semantic-interning query timed out earlier on this path: not trusted"
         elif st == "sat":
             ob.status = "refuted"
             ob.model = model_to_dict(m)
@@ -341,6 +349,7 @@ class Engine:
             self.prefix = self.work.pop()
             self.trace, self.pc, self.hyps = [], [], []
             self.fresh = 0
+            self.tainted = False
             self.path_id = self.paths
             self.paths += 1
             if self.paths > MAX_PATHS:
@@ -393,6 +402,8 @@ class Engine:
         if isinstance(cond, bool):
             return cond
         st, _ = check_sat(self.pc + self.hyps + [z3.Not(cond)], timeout_ms=timeout_ms)
+        if st == "unknown":
+            self.tainted = True  # a simplification query timed out: later refutations on this path are not trusted
         return st == "unsat"
 
 
